@@ -295,6 +295,15 @@ func runC20(w *World) {
 					case "port-out-of-range":
 						opts = append(opts, corebgp.WithPort(Pick(w, "badport", 65537, 65536+179, 70000, -179, 1<<20+179, 1<<31-1, -65535)))
 					}
+					// an unusable configuration stays unusable whatever else is set
+					for i, n := 0, w.Draw(3, "nextraopts"); i < n; i++ {
+						extra := Pick(w, "extraopt", corebgp.WithPassive(), corebgp.WithIdleHoldTime(time.Second), corebgp.WithConnectRetryTime(time.Second), corebgp.WithPassive())
+						if w.Draw(2, "extrapos") == 0 {
+							opts = append([]corebgp.PeerOption{extra}, opts...)
+						} else {
+							opts = append(opts, extra)
+						}
+					}
 					w.Probe("invalid:" + class)
 					pl := w.NewPlug("invalid")
 					var got error
